@@ -14,7 +14,8 @@ TECHNIQUE = ('bounded exhaustive enumeration of results (every result kind x dat
              'of datasets, every multiset of statuses / verdicts for the statistics kinds) x verbosity x representer through the real '
              'representers and rst formatter; the emitted reStructuredText is parsed back with docutils and compared cell by cell with '
              'an independently built expectation (text and highlight of every cell)')
-RULE = ('result kinds equal / approx-equal / Student / Bonferroni / Holm-Bonferroni on shapes (), (1,), (3,), (2,2) [C and Fortran order], '
+RULE = ('[session: every ordered pair of results of a family (statistics of tasks / tests / labels, metadata, equal, Student, Holm) is formatted in a row by ONE Rst object at every verbosity and compared with a fresh formatter] ' +
+        'result kinds equal / approx-equal / Student / Bonferroni / Holm-Bonferroni on shapes (), (1,), (3,), (2,2) [C and Fortran order], '
         '(1,3,1) with every failing-bin pattern (2^n, n <= 4) for 1 dataset and every pattern pair for 2 datasets (n <= 3); metadata with '
         'every agreement pattern on <= 3 keys; statistics of tasks (every multiset of <= 3 statuses), of tests (every multiset of <= 3 '
         'verdicts incl. missing results) and by labels (every assignment of verdict x label to <= 3 results); failed evaluation; each at '
